@@ -31,8 +31,13 @@ WHAT={
 "W-duplication-selfeq": ("src/ngo/utils/ast.py:771-812 replace_assignments", "`X = X*3` substituted away by duplication's replace_assignments / postprocess"),
 }
 findings=[{"id":"C18-pool","properties":["C18"],"site":"src/ngo/utils/ast.py:293-302 literal_predicate (symbol.ast_type == Function only)","witness":{"text":"a :- p(1;2)."},"what":"atom written with a pool (a :- p(1;2).) is skipped by every predicate collector: auto_detect_input returns [] although p/1 occurs only in a body","matcher":"c18_unpool"}]
+FIXED={"W-cleanup-samepred-neg":"ce607b1","W-cleanup-anonymous-samepred":"ce607b1"}
+fixed=[]
 for w in W:
     site,what=WHAT[w["id"]]
+    if w["id"] in FIXED:
+        fixed.append("fixed: property="+w["props"][0]+" "+FIXED[w["id"]]+" "+what+" ("+site+")")
+        continue
     wit={k:w[k] for k in ("check","text","traits","input","output","mode","instances") if k in w}
     props=w["props"]
     if w["id"].startswith("W-normalize"): props=sorted(set(props)|{"C01","C02","C05","C06","C08","C09","C10","C11","C12","C13","C14","C15","C16"})
@@ -78,6 +83,6 @@ for e in json.load(open("/tmp/sweep_C03.json")):
     findings.append({"id":"crash-"+k[1].replace(".py:","-"),"properties":["C03","C01"],"site":"src/ngo/"+k[1],"witness":{"check":"c03","text":c["text"],"traits":c["traits"],"input":c["input"],"output":c["output"]},
                      "exc":k[0],"exc_site":k[1],"what":SITES.get(k, k[0]+" in "+k[1]),"matcher":"exc_site"})
 json.dump({"comment":"Genuine defects of the unchanged potassco/ngo tree that are recorded rather than repaired (DESIGN.md section 6 / appendix B). Never written at run time. Each entry: id, properties, call site, witness (what the oracle replays), what fails, matcher (how a concrete failure is attributed to this entry: `text` = the failing program text equals the witness text; `c18_unpool` = the failure disappears after unpooling).",
-           "findings":findings,"fixed":[]}, open("/verif/known_findings.json","w"), indent=1)
+           "findings":findings,"fixed":fixed}, open("/verif/known_findings.json","w"), indent=1)
 print(len(findings)); 
 for f in findings[-8:]: print(f["id"], f["properties"], f["what"][:120])
